@@ -75,6 +75,7 @@ func checkC10(c *Ctx) {
 	r.Rule("R10d", "violation field path is the dotted join of all path elements", 3)
 	r.Rule("R10e", "client-side mapping of error responses (Go and TS)", 8)
 	r.Rule("R10f", "error interface for *Error messages and the built-in error messages", 4)
+	r.Rule("R10g", "every error response of the request path goes through the hook-aware writer (the pre-hook helpers are called only by each other)", 1)
 
 	ep, err := c.ServerRuntime()
 	if err != nil {
@@ -82,6 +83,36 @@ func checkC10(c *Ctx) {
 		return
 	}
 	eff := NewEffects(ep)
+
+	// ---- R10g who may write an error response past the hook
+	{
+		legacy := map[string]bool{"writeValidationErrorResponse": true, "writeValidationError": true, "writeErrorResponse": true, "writeProtoMessageResponse": true}
+		n := 0
+		for name, fd := range ep.Funcs {
+			if fd.Body == nil {
+				continue
+			}
+			ast.Inspect(fd.Body, func(nd ast.Node) bool {
+				call, ok := nd.(*ast.CallExpr)
+				if !ok {
+					return true
+				}
+				id, ok := call.Fun.(*ast.Ident)
+				if !ok || !legacy[id.Name] {
+					return true
+				}
+				n++
+				r.Check(legacy[name] || name == "writeErrorWithHandler", "R10g", name+" does not bypass the error hook (call of "+id.Name+")", ep.GenPos(call.Pos()),
+					fmt.Sprintf("%s writes an error response with %s, the pre-hook helper: the configured ErrorHandler (WithErrorHandler) is not consulted for this failure although it is for every other one — status, headers and body chosen by the hook are ignored", name, id.Name))
+				return true
+			})
+		}
+		_, hasHook := ep.Funcs["writeErrorWithHandler"]
+		r.Check(hasHook, "R10g", "writeErrorWithHandler is emitted", "", "the hook-aware error writer is not part of the runtime")
+		r.Count("legacy error-writer call sites", n)
+	}
+
+	violationFieldNonEmpty(c, ep, "R10d")
 
 	// ---- R10a
 	if fd := ep.Funcs["defaultErrorStatusCode"]; fd == nil {
@@ -632,4 +663,77 @@ func containsCall(n ast.Node, fun string) bool {
 		return !found
 	})
 	return found
+}
+
+// violationFieldNonEmpty: a FieldViolation whose Field is a local that starts out empty must pass an
+// unconditional non-empty fallback before it is appended (protojson drops an empty string, and the
+// published FieldViolation schema requires `field`).
+func violationFieldNonEmpty(c *Ctx, ep *EmittedPkg, rule string) {
+	r := c.R
+	n := 0
+	for name, fd := range ep.Funcs {
+		if fd.Body == nil {
+			continue
+		}
+		parents := parentMap(fd.Body)
+		ast.Inspect(fd.Body, func(nd ast.Node) bool {
+			cl, ok := nd.(*ast.CompositeLit)
+			if !ok || !strings.HasSuffix(types.ExprString(cl.Type), "FieldViolation") {
+				return true
+			}
+			var fieldExpr ast.Expr
+			for _, el := range cl.Elts {
+				if kv, ok := el.(*ast.KeyValueExpr); ok && types.ExprString(kv.Key) == "Field" {
+					fieldExpr = kv.Value
+				}
+			}
+			id, ok := fieldExpr.(*ast.Ident)
+			if !ok {
+				return true
+			}
+			// is the local initialised empty?
+			startsEmpty := false
+			ast.Inspect(fd.Body, func(m ast.Node) bool {
+				if as, ok := m.(*ast.AssignStmt); ok && as.Tok == token.DEFINE && len(as.Lhs) == 1 && types.ExprString(as.Lhs[0]) == id.Name {
+					if bl, ok := as.Rhs[0].(*ast.BasicLit); ok && bl.Value == `""` {
+						startsEmpty = true
+					}
+				}
+				return true
+			})
+			if !startsEmpty {
+				return true
+			}
+			n++
+			// the statement holding the literal and its block
+			var stmt ast.Node = cl
+			var list []ast.Stmt
+			for p := parents[stmt]; p != nil; p = parents[p] {
+				if b, ok := p.(*ast.BlockStmt); ok {
+					list = b.List
+					break
+				}
+				stmt = p
+			}
+			okFallback := false
+			for _, st := range list {
+				if st.Pos() >= stmt.Pos() {
+					break
+				}
+				ifs, ok := st.(*ast.IfStmt)
+				if !ok || types.ExprString(ifs.Cond) != id.Name+` == ""` || len(ifs.Body.List) != 1 {
+					continue
+				}
+				if as, ok := ifs.Body.List[0].(*ast.AssignStmt); ok && types.ExprString(as.Lhs[0]) == id.Name {
+					if bl, ok := as.Rhs[0].(*ast.BasicLit); ok && len(bl.Value) > 2 {
+						okFallback = true
+					}
+				}
+			}
+			r.Check(okFallback, rule, name+": a violation's field is never empty ("+id.Name+")", ep.GenPos(cl.Pos()),
+				fmt.Sprintf("%s appends a FieldViolation whose Field is the local %s, which starts empty, without an unconditional `if %s == \"\" { %s = \"…\" }` in the same block before it: for a violation without a field path (message-level rule) the 400 body has no \"field\" key, which the published FieldViolation schema requires", name, id.Name, id.Name, id.Name))
+			return true
+		})
+	}
+	r.Check(n > 0, rule, "violation literals with a computed field path found", "", "no FieldViolation literal with a locally computed field was found in the runtime")
 }
